@@ -399,7 +399,9 @@ TRead ==
          cause == IF v = "" \/ ~IsRows THEN ""
                   ELSE IF Rec[l].kind = "idx" THEN
                          (IF \A p \in 1..NRows : CountSame(Rows, Rows[p]) <= CountSame(E, Rows[p])
-                          THEN "index-misses-rows" ELSE "index-adds-rows")
+                          THEN "index-misses-rows"
+                          ELSE IF \A p \in 1..NRows : CountSame(E, Rows[p]) >= 1
+                          THEN "index-lists-a-matching-node-twice" ELSE "index-adds-rows")
                   ELSE IF MultiPattern(q) /\ ReadVerdict(ResultBagU(gr, q, TRUE), Rows, q.ret, BagCols(q)) = ""
                        THEN "rel-uniqueness-only-within-one-pattern"
                   ELSE IF ReadVerdict(E, RevRelLists(Rows), q.ret, BagCols(q)) = ""
